@@ -59,6 +59,29 @@ func TestCheck(t *testing.T) {
 						ms = append(ms, sb.String())
 					}
 				}
+				// bits 200..209 select the suspension sites inside the shared helpers (methods, interface
+				// methods, variadic and generic functions)
+				for mi := range ms {
+					pad := strings.Repeat("0", 200-len(ms[mi]))
+					res := strings.Repeat("0", 10)
+					switch {
+					case mi == 1:
+						res = strings.Repeat("1", 10)
+					case mi >= 2:
+						var sb strings.Builder
+						for x := 0; x < 10; x++ {
+							if rapid.IntRange(0, 2).Draw(rt, "rbit") == 0 {
+								sb.WriteByte('1')
+							} else {
+								sb.WriteByte('0')
+							}
+						}
+						res = sb.String()
+					}
+					if mi > 0 {
+						ms[mi] = ms[mi] + pad + res
+					}
+				}
 				out.masks = append(out.masks, ms)
 			}
 			return out
